@@ -67,3 +67,10 @@ package lexer
 //@   loop 5 invariant bounds: 0 <= start && start < pos && pos <= eof && eof == len(usage)
 //@   loop 5 invariant chars: forall i int :: start+1 <= i && i < pos ==> okArg(usage[i])
 //@   loop 5 decreases eof - pos
+
+// ParseError rendering (C03): printing a spec error never crashes when its position lies inside the input, which is what
+// Tokenize and parser.Parse guarantee of the errors they build
+//@ func (*ParseError).ident
+//@   requires inside: t != nil && 0 <= t.Pos && t.Pos <= len(t.Input)
+//@ func (*ParseError).Error
+//@   requires inside: t != nil && 0 <= t.Pos && t.Pos <= len(t.Input)
